@@ -313,10 +313,10 @@ Qed.
 
 (* ------------------------------------------------------------------ cache: allocate *)
 Ltac simpl_b := cbn [b_id b_pool b_bytes b_area b_pad b_used b_stop b_aused b_largest b_ss b_se b_empty b_dirty b_incr b_live
-                     fix_incr fix_empty fix_reset fix_init fixed].
+                     fix_incr fix_empty fix_reset fix_init fix_qpad fixed].
 
 Ltac simpl_b_in H := cbn [b_id b_pool b_bytes b_area b_pad b_used b_stop b_aused b_largest b_ss b_se b_empty b_dirty b_incr b_live
-                     fix_incr fix_empty fix_reset fix_init fixed] in H.
+                     fix_incr fix_empty fix_reset fix_init fix_qpad fixed] in H.
 
 Lemma bs_aused_le b : bstruct b -> b_aused b <= b_area b.
 Proof.
